@@ -61,6 +61,28 @@ Theorem c04_default_is_last : forall c h host port i,
 Proof. exact default_is_last. Qed.
 Print Assumptions c04_default_is_last.
 
+(* acceptance: NewRouters accepts exactly the non-empty, well-formed configurations in which no two domains are the same
+   after normalisation (lower case, host / port split, "*" = "*:*") - for all lists, wherever the two occurrences are and
+   whatever lies between them *)
+Theorem c04_accepts_iff_no_repeated_domain : forall c,
+  (exists t, build c = Ok t) <-> c <> [] /\ Forall vhost_wf c /\ NoDup (map snd (entries c)).
+Proof. exact build_accepts_iff. Qed.
+Print Assumptions c04_accepts_iff_no_repeated_domain.
+
+(* no shadowing: in an accepted configuration the domain that is the best candidate for a Host decides the lookup *)
+Theorem c04_no_shadowing : forall c t wl h host port i k s,
+  build c = Ok t -> wl_ok t wl -> host_parts h = Some (host, port) ->
+  In (i, k) (entries c) -> score host port k = Some s ->
+  (forall j k' s', In (j, k') (entries c) -> score host port k' = Some s' -> score_le s' s) ->
+  find_vhost_with wl t (Some h) = Some i.
+Proof. exact no_shadowing. Qed.
+Print Assumptions c04_no_shadowing.
+
+Theorem c04_repeated_wildcard_rejected :
+  build [Build_vhost ["*.aaa.com"] []; Build_vhost ["*.bbb.com"] []; Build_vhost ["*.AAA.com"] []] = Err EDupVirtualHost.
+Proof. exact repeated_wildcard_rejected. Qed.
+Print Assumptions c04_repeated_wildcard_rejected.
+
 (* case-insensitive in the request host and in the configured domains *)
 Theorem c04_host_case_insensitive : forall t wl h h', lower h = lower h' ->
   find_vhost_with wl t (Some h) = find_vhost_with wl t (Some h').
@@ -73,9 +95,12 @@ Print Assumptions c04_domain_case_insensitive.
 
 (* what the translator read from routers_impl.go findVirtualHost: the Host is lower-cased once, and a lookup that gave no
    index falls back to the default virtual host before giving up; and from virtualhost.go GetRouteFromEntries: one
-   loop over vh.routes returning the first Match (no index consulted) *)
+   loop over vh.routes returning the first Match (no index consulted); and from generateHostWithPortConfig / NewRouters:
+   a repeated default, exact host:port or wildcard suffix is refused when it is inserted, the wildcard one by a scan of
+   ALL entries of its port *)
 Theorem c04_router_source_shape :
-  RouterSrc_translator_ok = true /\ host_fallback_default = true /\ route_scan_is_linear = true.
+  RouterSrc_translator_ok = true /\ host_fallback_default = true /\ route_scan_is_linear = true /\
+  duplicate_checks_on_insert = true.
 Proof. repeat split; exact (eq_refl _). Qed.
 Print Assumptions c04_router_source_shape.
 
